@@ -770,7 +770,7 @@ func main() {
 		}
 	}
 	r.Extra("boundary_values", len(boundary))
-	r.Extra("exhaustive_cases", len(jobs))
+	r.Extra("boundary_grid_case_count", len(jobs))
 	const chunk = 2000
 	nch := (len(jobs) + chunk - 1) / chunk
 	vf.Parallel(nch, 8, func(ci int) {
